@@ -90,6 +90,10 @@ def units(tier, seed):
 
     n = 600 if tier == "quick" else 40000
     out = [{"i": i, "seed": seed} for i in range(n)]
+    # MR dimensions with derived (fused) items, mostly strands: derived_row_idxs /
+    # derived_column_idxs must follow the display order
+    out += [{"i": 1000000 + k, "seed": seed, "mrd": 1}
+            for k in range(160 if tier == "quick" else 6000)]
     paths = corpus.fixture_paths()
     reps = 1 if tier == "quick" else 12
     for rep in range(reps):
@@ -109,6 +113,8 @@ def make_case(unit):
     i = unit["i"]
     g = gen.G("C05/%s/%s" % (unit["seed"], i))
     template = TEMPLATES[i % len(TEMPLATES)]
+    if unit.get("mrd"):
+        template = ["mr", "mr", "mr|cat", "cat|mr"][i % 4]
     j = i // len(TEMPLATES)
     wmode = WEIGHTS[j % len(WEIGHTS)]
     mset = MSETS[gen.stratum(ID, i, 1, len(MSETS))]
@@ -117,7 +123,7 @@ def make_case(unit):
     sizes = [g.r.randint(2, 5) for _ in range(nparts)]
     facets = cases.random_facets(g, template, N, sizes=sizes, p_zero=0.25)
     cases.entangle_some(g, facets)
-    if g.chance(0.3):
+    if g.chance(0.3) or unit.get("mrd"):
         from .c07 import _derive_items
         for role, v in facets:
             if role == "mr":
@@ -483,6 +489,11 @@ def _compare(res, name, k, vT, vB, ri, ci, nr, nc, rT, cT, rB, cB):
             res.check("scalar", ok, "scalar/%s" % name, {"T": snap(vT), "B": snap(vB)})
         elif k in ("idx_row", "idx_col"):
             cc_t, cc_b = (rT, rB) if k == "idx_row" else (cT, cB)
+            # a position beyond the displayed extent points at nothing: a violation in itself
+            if not res.check("index_lists", all(0 <= int(i) < len(cc_t) for i in vT),
+                             "index_lists/%s/out_of_range" % name,
+                             {"T": snap(vT), "displayed": len(cc_t)}):
+                return
             setT = set(cc_t[i][:2] for i in vT)
             vis = set(c[:2] for c in cc_t)
             setB = set(cc_b[i][:2] for i in vB) & vis
@@ -571,6 +582,10 @@ def _strand(res, LT, LB, partT, partB, trT, trB):
             ok = snap(vT) == snap(vB)
             res.check("scalar", ok, "strand/scalar/%s" % name, {"T": snap(vT), "B": snap(vB)})
         elif name in IDX_ROW:
+            if not res.check("index_lists", all(0 <= int(i) < len(rT) for i in vT),
+                             "strand/index_lists/%s/out_of_range" % name,
+                             {"T": snap(vT), "displayed": len(rT)}):
+                continue
             setT = set(rT[i][:2] for i in vT)
             setB = set(rB[i][:2] for i in vB) & set(c[:2] for c in rT)
             res.check("index_lists", setT == setB, "strand/index_lists/%s" % name,
